@@ -34,8 +34,9 @@ MANIFEST = {
              "Gamma_0 = [[Omega, Omega Z^T], [Z Omega, Z Omega Z^T + H Sigma_w H^T]] is a fixed point of the second-moment propagation of the joint "
              "(alpha, y) system; zero-padding the stable-block solution solves the equation of the system with the unit-root rows and columns removed; "
              "Gamma_j = A^j Gamma_0 is the lag-j cross moment of every stationary second-moment process of that system; the triangular->square map is a "
-             "similarity that preserves all of this; the Lyapunov solution is unique under a contraction hypothesis (some power of T has operator norm "
-             "product < 1, real matrices); scaling every std by s scales every Gamma_j by s^2; the autocorrelation has unit diagonal, squares to "
+             "similarity that preserves all of this; the Lyapunov equation is the Kronecker system (I - T(x)T) vec Omega = vec Sigma the model solves, its "
+             "solution is unique when that matrix is non-singular and, for real matrices, under a contraction hypothesis (some power of T has operator "
+             "norm product < 1); scaling every std by s scales every Gamma_j by s^2; the autocorrelation has unit diagonal, squares to "
              "gamma^2/(d_i d_j) and is 0 under the zero-variance guard; in the executable model a cell is NaN exactly when its row or its column variable "
              "loads on a unit-root column. The executable model is tied to irispie on every run: exact NaN-pattern comparison and tolerance comparison "
              "of get_acov/get_acorr/rescale_stds against the exact rational Lyapunov solution computed from the implementation's own solution matrices, "
